@@ -74,6 +74,10 @@ pub struct BuildCfg {
     pub changelog: Vec<(String, String, u32)>,
     /// build with the large-file (stripped cpio) hook on
     pub large_files: bool,
+    /// call the scalar setters (source date, compression, metadata) AFTER the files, dependencies,
+    /// scriptlets and changelog entries were added: the order of builder calls must not matter
+    #[serde(default)]
+    pub late_setters: bool,
 }
 
 pub fn file_content(f: &FileCfg) -> Vec<u8> {
@@ -230,6 +234,49 @@ pub fn file_flags_expected(f: &FileCfg) -> u32 {
 /// Assemble the builder for a configuration whose sources are already on disk.
 pub fn builder_for(cfg: &BuildCfg, sources: &[PathBuf]) -> Result<PackageBuilder, rpm::Error> {
     let mut b = PackageBuilder::new(&cfg.name, &cfg.version, &cfg.license, &cfg.arch, &cfg.summary);
+    if !cfg.late_setters {
+        b = scalar_setters(cfg, b);
+    }
+    for (f, p) in cfg.files.iter().zip(sources) {
+        b = b.with_file(p, file_options(f)?)?;
+    }
+    for d in &cfg.deps {
+        let dep = dep_of(d);
+        b = match d.kind {
+            0 => b.provides(dep),
+            1 => b.requires(dep),
+            2 => b.conflicts(dep),
+            3 => b.obsoletes(dep),
+            4 => b.recommends(dep),
+            5 => b.suggests(dep),
+            6 => b.enhances(dep),
+            _ => b.supplements(dep),
+        };
+    }
+    for s in &cfg.scripts {
+        let sc = scriptlet_of(s);
+        b = match s.which {
+            0 => b.pre_install_script(sc),
+            1 => b.post_install_script(sc),
+            2 => b.pre_uninstall_script(sc),
+            3 => b.post_uninstall_script(sc),
+            4 => b.pre_trans_script(sc),
+            5 => b.post_trans_script(sc),
+            6 => b.pre_untrans_script(sc),
+            7 => b.post_untrans_script(sc),
+            _ => b.verify_script(sc),
+        };
+    }
+    for (n, t, ts) in &cfg.changelog {
+        b = b.add_changelog_entry(n, t, *ts);
+    }
+    if cfg.late_setters {
+        b = scalar_setters(cfg, b);
+    }
+    Ok(b)
+}
+
+fn scalar_setters(cfg: &BuildCfg, mut b: PackageBuilder) -> PackageBuilder {
     if let Some(r) = &cfg.release {
         b = b.release(r.clone());
     }
@@ -266,40 +313,7 @@ pub fn builder_for(cfg: &BuildCfg, sources: &[PathBuf]) -> Result<PackageBuilder
     if let Some(c) = compression_of(cfg) {
         b = b.compression(c);
     }
-    for (f, p) in cfg.files.iter().zip(sources) {
-        b = b.with_file(p, file_options(f)?)?;
-    }
-    for d in &cfg.deps {
-        let dep = dep_of(d);
-        b = match d.kind {
-            0 => b.provides(dep),
-            1 => b.requires(dep),
-            2 => b.conflicts(dep),
-            3 => b.obsoletes(dep),
-            4 => b.recommends(dep),
-            5 => b.suggests(dep),
-            6 => b.enhances(dep),
-            _ => b.supplements(dep),
-        };
-    }
-    for s in &cfg.scripts {
-        let sc = scriptlet_of(s);
-        b = match s.which {
-            0 => b.pre_install_script(sc),
-            1 => b.post_install_script(sc),
-            2 => b.pre_uninstall_script(sc),
-            3 => b.post_uninstall_script(sc),
-            4 => b.pre_trans_script(sc),
-            5 => b.post_trans_script(sc),
-            6 => b.pre_untrans_script(sc),
-            7 => b.post_untrans_script(sc),
-            _ => b.verify_script(sc),
-        };
-    }
-    for (n, t, ts) in &cfg.changelog {
-        b = b.add_changelog_entry(n, t, *ts);
-    }
-    Ok(b)
+    b
 }
 
 /// Build a configuration (sources are created in `dir`).
@@ -490,6 +504,17 @@ pub fn gen_cfg(r: &mut Rng, o: &GenOpts) -> BuildCfg {
             verify: if r.chance(1, 5) { Some([0u32, 0xffff_ffff, 1 | 2 | 4, 1 << 6][r.usize(4)]) } else { None },
         });
     }
+    // "twin" files: same size and same source mtime as an earlier regular file, different content
+    if cfg.files.len() >= 2 && r.chance(1, 3) {
+        let regs: Vec<usize> = (0..cfg.files.len()).filter(|i| cfg.files[*i].symlink.is_none() && cfg.files[*i].mode.map(|m| m & 0o170000 == 0o100000).unwrap_or(true)).collect();
+        if regs.len() >= 2 {
+            let (a, b) = (regs[0], regs[regs.len() - 1]);
+            cfg.files[b].size = cfg.files[a].size;
+            cfg.files[b].mtime = cfg.files[a].mtime;
+            cfg.files[b].content_kind = cfg.files[a].content_kind.clone();
+            cfg.files[b].content_seed = cfg.files[a].content_seed ^ 0x5555;
+        }
+    }
     let ndeps = r.usize(9);
     for _ in 0..ndeps {
         let ctor = ["any", "eq", "less", "less_eq", "greater", "greater_eq", "script_pre", "script_post", "raw"][r.usize(9)];
@@ -511,6 +536,7 @@ pub fn gen_cfg(r: &mut Rng, o: &GenOpts) -> BuildCfg {
             });
         }
     }
+    cfg.late_setters = r.chance(1, 3);
     let ncl = r.usize(4);
     for i in 0..ncl {
         cfg.changelog.push((format!("Author {i} <a{i}@example.com> - 1.{i}-1"), rand_string(r), [0u32, 840_000_000, 1_681_411_811, u32::MAX][r.usize(4)]));
@@ -531,11 +557,13 @@ pub fn expected_mode(f: &FileCfg) -> u16 {
     }
 }
 
-pub const KEY_FILES: [(&str, &str, &str, Option<&str>); 4] = [
+pub const KEY_FILES: [(&str, &str, &str, Option<&str>); 5] = [
     ("rsa4096", "tests/assets/signing_keys/secret_rsa4096.asc", "tests/assets/signing_keys/public_rsa4096.asc", None),
     ("rsa3072-protected", "tests/assets/signing_keys/secret_rsa3072_protected.asc", "tests/assets/signing_keys/public_rsa3072_protected.asc", Some("thisisN0Tasecuredpassphrase")),
     ("ed25519", "tests/assets/signing_keys/secret_ed25519.asc", "tests/assets/signing_keys/public_ed25519.asc", None),
     ("ecdsa-p256", "tests/assets/signing_keys/secret_ecdsa_p256.asc", "tests/assets/signing_keys/public_ecdsa_p256.asc", None),
+    // the 2048-bit RSA key of the unit tests: its signature makes the signature store a multiple of 8 bytes
+    ("rsa2048", "test_assets/secret_key.asc", "test_assets/public_key.asc", None),
 ];
 
 pub struct Key {
